@@ -146,6 +146,13 @@ func (fc *FnCtx) assign(st *State, lhs ast.Expr, v Val) {
 			fc.unsupp(l.Pos(), "assignment to selector %s", exprText(l))
 		}
 		v = fc.convertAssign(st, v, sel.Type())
+		if r := fc.root(); r == fc && r.ct != nil {
+			for i, cl := range r.ct.WritePre[l.Sel.Name] {
+				env := &SpecEnv{fc: fc, st: st, old: r.entry, scope: map[string]Val{"$value": v}, oldScope: fc.paramsEntry, pkg: fc.ctPkg(), useVars: true}
+				g := fc.safeSpec(env, cl.E, cl.Text)
+				fc.assertNamed(st, "emit", "write."+l.Sel.Name+"."+clauseName(cl, i), g.T, "whenever field "+l.Sel.Name+" is assigned: "+cl.Text, l.Pos())
+			}
+		}
 		idx := sel.Index()
 		base := fc.eval(st, l.X)
 		// walk all but the last index
@@ -486,7 +493,7 @@ func (fc *FnCtx) loopNumber(s ast.Stmt) int { return fc.loopOrd[s] }
 
 func (fc *FnCtx) invEnv(st *State, extra map[string]Val) *SpecEnv {
 	r := fc.root()
-	env := &SpecEnv{fc: fc, st: st, old: r.entry, scope: map[string]Val{}, oldScope: map[string]Val{}, pkg: fc.ctPkg(), useVars: true}
+	env := &SpecEnv{fc: fc, st: st, old: r.entry, scope: map[string]Val{}, oldScope: map[string]Val{}, pkg: fc.ctPkg(), useVars: true, loopEntry: fc.loopEntries[fc.curLoop]}
 	for k, v := range fc.paramsEntry {
 		env.oldScope[k] = v
 	}
@@ -506,6 +513,36 @@ func (fc *FnCtx) ctPkg() *Pkg {
 }
 
 func (fc *FnCtx) checkInvs(st *State, n int, tag string, extra map[string]Val, pos token.Pos) {
+	if fc.loopEntries == nil {
+		fc.loopEntries = map[int]*State{}
+	}
+	if tag == "init" {
+		fc.loopEntries[n] = st.clone()
+	}
+	fc.curLoop = n
+	if tag == "preserve" && fc.freshRows != nil {
+		keys := []string{}
+		for k := range fc.freshRows[n] {
+			keys = append(keys, k)
+		}
+		sort.Strings(keys)
+		for _, k := range keys {
+			head := fc.freshRows[n][k]
+			cur := st.heap[k]
+			if cur == "" || cur == head {
+				continue
+			}
+			fc.smt.nfresh++
+			q := fmt.Sprintf("r!q%d", fc.smt.nfresh)
+			top := fc.loopEntries[n].top
+			goal := fmt.Sprintf("(forall ((%s Int)) (! (=> (<= %s %s) (= (select %s %s) (select %s %s))) :pattern ((select %s %s))))", q, q, top, cur, q, fc.heapAtHead(n, k, head), q, cur, q)
+			fc.assertNamed(st, "loopframe", fmt.Sprintf("loop%d.fresh-rows.%s", n, k), goal, "the loop writes slice elements only in arrays allocated inside the loop ("+k+")", pos)
+		}
+	}
+	if tag == "preserve" {
+		r := fc.root()
+		r.canaries = append(r.canaries, &Obligation{Name: fmt.Sprintf("%s#vacuity:loop%d.body", r.key, n), Kind: "vacuity", Goal: "false", PC: append([]string(nil), st.pc...), Vacuity: true})
+	}
 	fc.checkFrame(st, fmt.Sprintf("loop%d.%s.", n, tag), pos)
 	if fc.ct == nil {
 		return
@@ -521,6 +558,7 @@ func (fc *FnCtx) checkInvs(st *State, n int, tag string, extra map[string]Val, p
 }
 
 func (fc *FnCtx) assumeInvs(st *State, n int, extra map[string]Val) {
+	fc.curLoop = n
 	fc.assumeFrame(st)
 	if fc.ct == nil {
 		return
@@ -547,6 +585,7 @@ func (fc *FnCtx) decreases(st *State, n int, extra map[string]Val) (Val, bool) {
 	if fc.ct == nil {
 		return Val{}, false
 	}
+	fc.curLoop = n
 	d, ok := fc.ct.LoopDec[n]
 	if !ok {
 		return Val{}, false
@@ -555,8 +594,47 @@ func (fc *FnCtx) decreases(st *State, n int, extra map[string]Val) (Val, bool) {
 }
 
 // havocLoop havocs everything the loop body may modify
+// loopFreshOnly: `loop N modifies fresh` -- slice-element writes of this loop go only to arrays allocated inside
+// the loop (checked at the end of the body), so every row that exists at loop entry is unchanged.
+func (fc *FnCtx) loopFreshOnly(n int) map[string]bool {
+	if fc.ct == nil {
+		return nil
+	}
+	out := map[string]bool{}
+	for _, m := range fc.ct.LoopMod[n] {
+		m = strings.TrimSpace(m)
+		if strings.HasPrefix(m, "fresh ") {
+			t := fc.eng.resolveType(fc.ctPkg(), strings.TrimSpace(m[6:]))
+			if sl, ok := t.(*types.Slice); ok {
+				k, _ := fc.elemsKey(sl.Elem())
+				out[k] = true
+			} else {
+				panic(unsupportedErr{"loop modifies fresh: not a slice type: " + m})
+			}
+		}
+	}
+	return out
+}
+
 func (fc *FnCtx) havocLoop(st *State, body ast.Node, extraVars []types.Object) {
 	ms := fc.modSetOf(body)
+	if n := fc.havocFor; n > 0 && len(fc.loopFreshOnly(n)) > 0 {
+		only := fc.loopFreshOnly(n)
+		if fc.freshRows == nil {
+			fc.freshRows = map[int]map[string]string{}
+		}
+		fc.freshRows[n] = map[string]string{}
+		for k := range ms.comps {
+			if only[k] {
+				ms.comps[k] = []ast.Expr{}
+				ms.fresh[k] = true
+				if srt, ok := fc.smt.heapSort[k]; ok {
+					fc.freshRows[n][k] = fc.comp(st, k, srt)
+				}
+			}
+		}
+		fc.freshTop = st.top
+	}
 	for _, o := range extraVars {
 		ms.vars[o] = true
 	}
@@ -604,6 +682,8 @@ func (fc *FnCtx) havocLoop(st *State, body ast.Node, extraVars []types.Object) {
 			}
 			if whole {
 				l.refs = nil
+			} else if l.refs == nil {
+				l.refs = []string{}
 			}
 			locs = append(locs, l)
 		}
@@ -669,6 +749,15 @@ func (fc *FnCtx) havocLoop(st *State, body ast.Node, extraVars []types.Object) {
 	nt := fc.smt.fresh("top", "Int")
 	st.assume("(>= " + nt + " " + st.top + ")")
 	st.top = nt
+	if n := fc.havocFor; n > 0 && fc.freshRows != nil && fc.freshRows[n] != nil {
+		if fc.headHeap == nil {
+			fc.headHeap = map[int]map[string]string{}
+		}
+		fc.headHeap[n] = map[string]string{}
+		for k := range fc.freshRows[n] {
+			fc.headHeap[n][k] = st.heap[k]
+		}
+	}
 }
 
 func (fc *FnCtx) havocAll(st *State) {
@@ -698,6 +787,7 @@ func (fc *FnCtx) execFor(st *State, s *ast.ForStmt, label string) []Outcome {
 	fc.checkInvs(st, n, "init", nil, s.Pos())
 	h := st.clone()
 	var loopNodes ast.Node = s.Body
+	fc.havocFor = n
 	fc.havocLoop(h, &ast.BlockStmt{List: stmtsOf(s.Body, s.Post)}, nil)
 	_ = loopNodes
 	fc.assumeInvs(h, n, nil)
@@ -824,6 +914,7 @@ func (fc *FnCtx) execRange(st *State, s *ast.RangeStmt, label string) []Outcome 
 		ln := "(s_len " + sv.T + ")"
 		fc.checkInvs(st, n, "init", map[string]Val{"$i": {"0", intT}, "$len": {ln, intT}}, s.Pos())
 		h := st.clone()
+		fc.havocFor = n
 		fc.havocLoop(h, s.Body, nil)
 		i := fc.smt.fresh("ri", "Int")
 		h.assume(fmt.Sprintf("(and (<= 0 %s) (<= %s %s))", i, i, ln))
@@ -845,7 +936,8 @@ func (fc *FnCtx) execRange(st *State, s *ast.RangeStmt, label string) []Outcome 
 			nv := fc.eval(st, s.X)
 			fc.checkInvs(st, n, "init", map[string]Val{"$i": {"0", intT}}, s.Pos())
 			h := st.clone()
-			fc.havocLoop(h, s.Body, nil)
+			fc.havocFor = n
+		fc.havocLoop(h, s.Body, nil)
 			i := fc.smt.fresh("ri", "Int")
 			h.assume(fmt.Sprintf("(and (<= 0 %s) (or (<= %s %s) (= %s 0)))", i, i, nv.T, i))
 			fc.assumeInvs(h, n, map[string]Val{"$i": {i, intT}})
@@ -876,12 +968,14 @@ func (fc *FnCtx) execRange(st *State, s *ast.RangeStmt, label string) []Outcome 
 		dom0 := sel(fc.comp(h, dk, ds), m.T)
 		val0 := sel(fc.comp(h, vk, vs), m.T)
 		len0 := lenT(h)
+		fc.havocFor = n
 		fc.havocLoop(h, s.Body, nil)
 		// domain of the ranged map is unchanged by the body (checked after each iteration)
 		seen := fc.smt.fresh("seen", setSort)
 		cnt := fc.smt.fresh("rn", "Int")
 		h.assume(fmt.Sprintf("(and (<= 0 %s) (<= %s %s))", cnt, cnt, len0))
 		h.assume(eq(sel(fc.comp(h, dk, ds), m.T), dom0))
+		h.assume(eq(sel(fc.comp(h, vk, vs), m.T), val0))
 		h.assume(eq(lenT(h), len0))
 		fc.smt.nfresh++
 		q := fmt.Sprintf("k!q%d", fc.smt.nfresh)
@@ -907,7 +1001,7 @@ func (fc *FnCtx) execRange(st *State, s *ast.RangeStmt, label string) []Outcome 
 			},
 			func(c *State, extra map[string]Val) map[string]Val {
 				// ranged map untouched
-				fc.assertNamed(c, "range", fmt.Sprintf("loop%d.map-unmodified", n), eq(sel(fc.comp(c, dk, ds), m.T), dom0), "map is not modified while ranged over", s.Pos())
+				fc.assertNamed(c, "range", fmt.Sprintf("loop%d.map-unmodified", n), and(eq(sel(fc.comp(c, dk, ds), m.T), dom0), eq(sel(fc.comp(c, vk, vs), m.T), val0)), "map is not modified while ranged over", s.Pos())
 				return map[string]Val{"$seen": {sto(seen, kk, "true"), nil}, "$n": {"(+ " + cnt + " 1)", intT}}
 			},
 			func(e *State) {})
@@ -915,6 +1009,7 @@ func (fc *FnCtx) execRange(st *State, s *ast.RangeStmt, label string) []Outcome 
 		ch := fc.eval(st, s.X)
 		fc.checkInvs(st, n, "init", nil, s.Pos())
 		h := st.clone()
+		fc.havocFor = n
 		fc.havocLoop(h, s.Body, nil)
 		fc.assumeInvs(h, n, nil)
 		okc := fc.smt.fresh("rangeok", "Bool")
@@ -1148,4 +1243,12 @@ func containsLoop(n ast.Node) bool {
 		return !found
 	})
 	return found
+}
+
+// heapAtHead: the component as assumed at the loop head after the havoc (the body's starting point)
+func (fc *FnCtx) heapAtHead(n int, k, before string) string {
+	if h, ok := fc.headHeap[n][k]; ok {
+		return h
+	}
+	return before
 }
